@@ -115,6 +115,23 @@ def resolve1Fuel (strict : Bool) (g : Graph) : Nat → List Nat → Obj → Exce
 def resolve1 (strict : Bool) (g : Graph) (x : Obj) : Except Err Obj :=
   resolve1Fuel strict g (g.length + 1) [] x
 
+/-- Number of `getobj` calls (`PDFObjRef.resolve`) the loop of `resolve1` makes: one per reference followed
+(the call that ends in PDFObjectNotFound included), none for a reference the guard rejects.  Same recursion as
+`resolve1Fuel`; measured on the implementation by the harness (`calls` op). -/
+def resolve1CallsFuel (g : Graph) : Nat → List Nat → Obj → Nat
+  | fuel + 1, seen, .ref n =>
+    if Gen.Lenient.resolve1Guard && seen.contains n then 0
+    else
+      match g.lookup n with
+      | none => 1
+      | some y => 1 + resolve1CallsFuel g fuel (n :: seen) y
+  | _, _, _ => 0
+
+def resolve1Calls (g : Graph) (x : Obj) : Nat := resolve1CallsFuel g (g.length + 1) [] x
+
+/-- The distinct object numbers of a graph. -/
+def objids (g : Graph) : List Nat := (g.map Prod.fst).eraseDups
+
 /-! ### typed accessors -/
 
 def intValue (strict : Bool) (g : Graph) (x : Obj) : Except Err Obj := do
